@@ -163,3 +163,42 @@ def run_coerce(P, rep, rule="R-COERCE"):
             rep.viol(rule, site + " via " + others[0].rsplit("::", 1)[-1], P.where(fn), "the string passes through `%s` around the parse" % others[0])
         else:
             rep.ok(rule, site, P.where(fn), "x.parse::<%s>().ok(), no other condition" % ty)
+
+
+# ---------------------------------------------------------------------------------------
+# R-MATH.round: ceil/floor/round convert with a plain saturating cast, not behind a magnitude test
+
+def run_round_cast(P, rep, rule="R-MATH.round"):
+    """CeilFilter / FloorFilter / RoundFilter::evaluate (private helpers expanded): the rounded f64 becomes the result through an
+    `as i64` cast; no ordering comparison between floats (a hand-written range test such as `n.abs() < 2^63` is off by one at
+    -2^63) and no error exit other than the input-conversion one guards that cast."""
+    import inline
+    for ty in ("CeilFilter", "FloorFilter", "RoundFilter"):
+        fn = P.fn_by_key("<liquid_lib::stdlib::filters::math::%s as liquid_core::parser::filter::Filter>::evaluate" % ty)
+        hs = inline.helpers_of(P, [fn], depth=2)
+        hs = {h for h in hs if P.fns[h].file == fn.file and "invalid_" not in h}
+        view = fn
+        if hs:
+            v2, n2 = inline.inlined(P, fn, frozenset(hs))
+            if n2:
+                view = v2
+        site = ty.replace("Filter", "").lower()
+        casts = [st for b in view.blocks for st in b["s"] if st[0] == "a" and st[2]["k"] == "cast" and st[2]["ck"] == "FloatToInt"]
+        fcmp = []
+        for b in view.blocks:
+            for st in b["s"]:
+                if st[0] == "a" and st[2]["k"] == "bin" and st[2]["op"] in ("Lt", "Le", "Gt", "Ge"):
+                    for k in ("a", "b"):
+                        ol = op_local(st[2][k])
+                        if ol and P.local_ty(view, ol[0]) in ("f64", "f32"):
+                            fcmp.append(st[3] if len(st) > 3 else view.line)
+                        elif st[2][k][0] == "k" and isinstance(st[2][k][1], dict) and "f64" in str(P.tstr(view.crate, st[2][k][1]["ty"])) if isinstance(st[2][k][1].get("ty"), int) else False:
+                            fcmp.append(st[3] if len(st) > 3 else view.line)
+        if not casts:
+            rep.viol(rule, site, P.where(fn), "no `as i64` conversion of the rounded value found (the float-to-integer step changed shape)")
+        elif fcmp:
+            rep.viol(rule, site + " float-compare", P.where(fn, fcmp[0]),
+                     "the float-to-integer conversion of `%s` is guarded by a float ordering comparison: a hand-written range test rejects or alters boundary values "
+                     "(-2^63 is inside the 64-bit range)" % site)
+        else:
+            rep.ok(rule, site, P.where(fn), "rounded value converted by a plain `as i64`; no float range test")
